@@ -15,6 +15,7 @@ import (
 
 	p "go.minekube.com/gate/pkg/edition/java/proto/packet"
 	"go.minekube.com/gate/pkg/edition/java/proto/packet/chat"
+	"go.minekube.com/gate/pkg/edition/java/proto/packet/plugin"
 	"go.minekube.com/gate/pkg/edition/java/proto/packet/tablist/playerinfo"
 	"go.minekube.com/gate/pkg/edition/java/proto/util"
 	"go.minekube.com/gate/pkg/edition/java/proto/version"
@@ -242,6 +243,34 @@ func main() {
 			canon := sort.IntsAreSorted(acts)
 			emit("playerinfo.Upsert", r, lib.App("Check.C07.KUpsert", actsTerm(acts)), pktgen.DumpAt(pk, r.Proto), b,
 				map[string]any{"actions": acts, "entries": len(pk.Entries)}, fmt.Sprintf("actions=%d", len(acts)), fmt.Sprintf("canonical=%v", canon))
+		}
+	}
+	// ---- 1.7 plugin messages with long payloads: the array length needs the Forge three-byte form from 32768 on
+	// (bit 15 of the short is the continuation flag). Uniform payloads, written compactly as (rep b n). ----
+	for _, r := range regs {
+		if r.Type.String() != "plugin.Message" || r.Proto.GreaterEqual(version.Minecraft_1_8) {
+			continue
+		}
+		for _, n := range []int{32767, 32768, 32769, 40000, 65535, 65536, 100000} {
+			fill := byte(7 + n%5)
+			pk := &plugin.Message{Channel: "FML|HS", Data: bytes.Repeat([]byte{fill}, n)}
+			b, err := encode(pk, r)
+			if err != nil {
+				rejected++
+				continue
+			}
+			if len(b) < n || !bytes.Equal(b[len(b)-n:], pk.Data) {
+				// not header ++ payload: print in full
+				emit("plugin.Message", r, "Check.C07.KRef", pktgen.DumpAt(pk, r.Proto), b, map[string]any{"data_len": n}, "long17")
+				continue
+			}
+			data := fmt.Sprintf("(Check.C07.rep %d %d)", fill, n)
+			env := "(FS " + lib.List([]string{lib.Pair(`"Channel"`, "(FBy "+lib.Str(pk.Channel)+")"), lib.Pair(`"Data"`, "(FBy "+data+")")}) + ")"
+			term := lib.App("Check.C07.mk", `"plugin.Message"`, lib.Z(int64(r.Proto)), lib.Bool(r.Dir == proto.ClientBound), "Check.C07.KRef", env,
+				"("+lib.Bytes(b[:len(b)-n])+" ++ "+data+")%list")
+			out.Add(term, map[string]any{"type": "plugin.Message", "protocol": int(r.Proto), "dir": r.Dir.String(), "state": r.StateName,
+				"channel": pk.Channel, "data": fmt.Sprintf("%d x %02x", n, fill), "header_hex": fmt.Sprintf("%x", b[:len(b)-n])}, true,
+				"type=plugin.Message", fmt.Sprintf("protocol=%d", r.Proto), fmt.Sprintf("long17=%d", n))
 		}
 	}
 	// ---- concurrency: player-info updates for different viewers are encoded at the same time (every connection has
